@@ -290,6 +290,32 @@ class OffsetKDTransform(_KDTransform):
         return ("KD", self.offset, x)
 
 
+class FaultyCallTransform(_KDTransform):
+    """identity whose `fail_call`-th application (counted per process, from the worker hook on) raises a read error - a corrupt
+    sample reaching the transform pipeline; a deterministic KDTransform, scaling it does nothing"""
+
+    def __init__(self, fail_call=None, fail_ranks=None):
+        super().__init__()
+        self.fail_call = fail_call
+        self.fail_ranks = fail_ranks
+        self.calls = 0
+        self.rank_ = 0
+
+    def _worker_init_fn(self, rank, num_workers=None, **kwargs):
+        self.calls = 0
+        self.rank_ = rank
+
+    def _scale_strength(self, factor):
+        pass
+
+    def __call__(self, x, ctx=None):
+        k = self.calls
+        self.calls += 1
+        if self.fail_call is not None and k == self.fail_call and (self.fail_ranks is None or self.rank_ in self.fail_ranks):
+            raise InjectedReadError(5, f"injected: corrupt sample reached the transform (call {k} on worker {self.rank_})")
+        return x
+
+
 class FaultyHookTransform(_KDTransform):
     """a deterministic transform whose per-worker initialisation needs a resource (a lookup file on node-local storage, say)
     that is missing on some workers: its hook raises there.  Applied to a sample it is the identity."""
